@@ -42,6 +42,7 @@ import (
 	"github.com/ethereum/go-ethereum/crypto"
 	"github.com/ethereum/go-ethereum/ethclient"
 	"github.com/ethereum/go-ethereum/rlp"
+	"github.com/ethereum/go-ethereum/rpc"
 )
 
 // LogSpec is one log to be placed in a block: the emitting contract, topics and data
@@ -276,9 +277,14 @@ func Start(c *Chain) (*Server, error) {
 // URL is the endpoint for ethclient.Dial.
 func (s *Server) URL() string { return "http://" + s.ln.Addr().String() }
 
-// Dial returns an ethclient connected to the fake.
+// Dial returns an ethclient connected to the fake.  Every HTTP round trip is bounded by a
+// client timeout, so that no caller can wait forever on the fake.
 func (s *Server) Dial(ctx context.Context) (*ethclient.Client, error) {
-	return ethclient.DialContext(ctx, s.URL())
+	c, err := rpc.DialOptions(ctx, s.URL(), rpc.WithHTTPClient(&http.Client{Timeout: 15 * time.Second}))
+	if err != nil {
+		return nil, err
+	}
+	return ethclient.NewClient(c), nil
 }
 
 // Close stops the server.
